@@ -175,7 +175,7 @@ void h_mark_item(void) {
 static var cv_type; static struct Mark cv_mark_inst; static int cv_mark_inst_calls; static void (*cv_mark_f)(var, void*);
 static void cv_mark_fn(var self, var g, void (*f)(var, void*)) { cv_mark_inst_calls++; cv_mark_f = f; }
 var type_of(var self) { return cv_type; }
-var type_instance(var type, var cls) { __CPROVER_assert(cls == Mark, "type_instance(type, Mark)"); return (type == Array || type == Table) ? &cv_mark_inst : NULL; }
+var type_instance(var type, var cls) { __CPROVER_assert(cls == Mark, "harness: type_instance(type, Mark)"); return (type == Array || type == Table) ? &cv_mark_inst : NULL; }
 size_t size(var type) { return type == Ref ? sizeof(struct Ref) : type == Range ? sizeof(struct Range) : 0; }
 static int cv_mi_calls, cv_mi_q; static void* cv_mi_args[8];
 void cv_mark_item(void* g, void* ptr) { if (cv_mi_calls < 8) cv_mi_args[cv_mi_calls] = ptr; cv_mi_calls++; if (ptr == gh_q) cv_mi_q++; }
@@ -337,7 +337,7 @@ void h_sweep_owner_concrete(void) {
   if (ORDER == 0) { gc->nitems++; GC_Set_Ptr(gc, in_p, false); gc->nitems++; GC_Set_Ptr(gc, gh_q, false); }
   else { gc->nitems++; GC_Set_Ptr(gc, gh_q, false); gc->nitems++; GC_Set_Ptr(gc, in_p, false); }
   for (int i = 0; i < 3; i++) if (ENT_A[i].hash != 0 && ENT_A[i].ptr == gh_q) ENT_A[i].marked = MQ;
-  __CPROVER_assert(wf_gc(gc, 3, 0), "pre-state built by the real GC_Set_Ptr is well formed");
+  __CPROVER_assert(wf_gc(gc, 3, 0), "harness: pre-state built by the real GC_Set_Ptr is well formed");
   cv_reenter = 1; cv_reenter_target = in_p;
   GC_Sweep(gc);
   ASSERT(cv_destructs_q == 1 && cv_deallocs_q == 1, "[C06] an object owned by a swept owner is finalised exactly once and released exactly once, whichever of the two the sweep reaches first");
